@@ -13,11 +13,16 @@ func extraGen(kind string, seed int64, prop string, idx int) (*Case, bool) {
 		return &Case{Kind: kind, G: &GraphCase{Batch: 2000, Seed: r.Int63()}}, true
 	case "small":
 		return &Case{Kind: kind, H: genSmall(idx, caseRand(seed, kind, idx))}, true
-	case "diff:c06", "diff:c15", "diff:c16", "diff:c17":
+	case "diff:c06", "diff:c15", "diff:c16", "diff:c16deco", "diff:c17":
 		r := caseRand(seed, kind, idx)
-		prof := map[string]string{"diff:c06": "rejects", "diff:c15": "enc", "diff:c16": "order", "diff:c17": "dry"}[kind]
+		prof := map[string]string{"diff:c06": "rejects", "diff:c15": "enc", "diff:c16": "order", "diff:c16deco": "orderdeco", "diff:c17": "dry"}[kind]
 		h := genHistory(r, profileByName(prof))
 		return &Case{Kind: kind, H: h, X: map[string]interface{}{"tseed": r.Int63n(1 << 40)}}, true
+	case "diff:c16block":
+		r := caseRand(seed, kind, idx)
+		return &Case{Kind: kind, H: genDecoBlock(r), X: map[string]interface{}{"tseed": r.Int63n(1 << 40)}}, true
+	case "hist:decoblock":
+		return &Case{Kind: kind, H: genDecoBlock(caseRand(seed, kind, idx))}, true
 	case "garbage":
 		r := caseRand(seed, kind, idx)
 		return &Case{Kind: kind, H: genGarbageHistory(r)}, true
@@ -94,7 +99,7 @@ func extraCheck(prop string, c *Case, trace bool) (*CaseResult, bool) {
 		return checkC06(c, trace), true
 	case c.Kind == "diff:c15":
 		return checkC15(c, trace), true
-	case c.Kind == "diff:c16":
+	case c.Kind == "diff:c16" || c.Kind == "diff:c16deco" || c.Kind == "diff:c16block":
 		return checkC16(c, trace), true
 	case c.Kind == "diff:c17":
 		return checkC17(c, trace), true
@@ -118,7 +123,8 @@ func extraJobs(prop, tier string) []JobSpec {
 	case "C15":
 		return []JobSpec{{"diff:c15", n(40000, 2000000)}}
 	case "C16":
-		return []JobSpec{{"diff:c16", n(40000, 2000000)}}
+		// diff:c16deco: group-heavy blocks with decorators at several levels of deeper trees and exported consumers
+		return []JobSpec{{"diff:c16", n(40000, 2000000)}, {"diff:c16deco", n(15000, 700000)}, {"diff:c16block", n(15000, 700000)}}
 	case "C17":
 		return []JobSpec{{"diff:c17", n(40000, 2000000)}}
 	case "C05":
